@@ -193,6 +193,56 @@ CLAIMS.update({
   design='§8.12'),
 })
 
+CLAIMS.update({
+ 'C13': dict(category='proof',
+  text=('Proved for ALL byte strings (closed) over the hand model of _check_iso9660_filename/_check_iso9660_directory/_split_iso9660_filename with the d-character set TRANSLATED from /repo: an accepted '
+        'identifier obeys every documented rule of its level (C13_accepted_*_is_legal), the checkers only accept or refuse with the invalid-input error (the pinned original leaked ValueError: _refuted), '
+        'level-1 and directory names are bounded so that they fit their record, file names at levels 2-4 are NOT bounded by the checker (explicit witness; the record-length refusal happens when the record is '
+        'built, fix ce58dfc); uniqueness of names per directory and namespace is an invariant of the specification for every history.  Tie: model vs the real checkers on an exhaustive short-string grid (~45k '
+        'cases).  The property itself: a catalogue of rule-breaking edits (duplicates of every kind in every namespace, illegal identifiers per level, over-long names for record / Joliet / UDF, depth) issued '
+        'against generated images must raise PyCdlibInvalidInput at once; identifiers of written images unique and legal (independent reader).'),
+  note='Duplicate detection in the object graph (_add_child, add_file_ident_desc) is checked by the edit catalogue on sampled images, not modelled in Coq.',
+  technique='Coq soundness proofs for the identifier checkers + exhaustive checker grid + rule-breaking-edit catalogue on generated images',
+  design='§8.13'),
+ 'C14': dict(category='proof',
+  text=('Proved (closed): in the specification a refused edit changes nothing; in the staged-execution model of a multi-namespace call (Model/Atomic.v) a call that validates before it mutates is atomic, a '
+        'refusal raised before the first mutation is atomic in any call, a refusal raised after a mutation leaves exactly the partially applied state, and one check after an effective mutation breaks '
+        'atomicity.  pycdlib interleaves validation and mutation per namespace, so the full claim is FALSE for late causes: the catalogue of ~45 (call, cause) pairs classifies each as EARLY or LATE '
+        '(transcribed from the code) and is validated on every run by fork-and-compare: the refused call is issued on a fresh fork of a generated object, write_fp bytes are compared with the untouched '
+        'object, then three further edits are applied to both.  An EARLY cause observed non-atomic is a violation; the 13 LATE causes observed non-atomic are known findings identified by (call, cause).'),
+  note='The stage order of each call is transcribed by hand into the catalogue (trusted, but falsified by the run when wrong in the EARLY direction).',
+  technique='Coq atomicity theorems for staged execution + fork-and-compare of refused calls against a per-cause early/late catalogue',
+  design='§8.14'),
+ 'C15': dict(category='other',
+  text=('PROVED (closed) for the control skeleton of the two directory walks of _open_fp (Model/Walk.v, breadth-first queue over the sub-directory extents an ADVERSARIAL image lists, with the seen-set of fix 279a8b6): '
+        'each directory extent is read at most once, the walk ends within |extents|+1 iterations with success or the documented refusal, its queue is bounded by the image, the check never fires on tree-shaped '
+        'images; for the pinned original the claim is refuted (self-listing directory: runs for every fuel with unbounded memory).  Model tied to the code on redirected directory graphs of real images.  '
+        'EXPLORED, not proved: that no undocumented exception type escapes the ~3000 lines of record parsers -- ~60 (thorough 220) structured corruptions of each of 24 (200) base images (truncations at every '
+        'structure boundary, field mutations in every structure kind, consistent both-endian extent/length rewrites incl. self/parent/beyond-EOF, El Torito and boot-info fields, path tables, UDF tags) opened in '
+        'subprocesses under a 6 s alarm and a 1.5 GiB address-space limit.'),
+  note='level "other": proof for the loop skeleton, structured exploration for the record parsers; open()/open_fp() convert builtin exception types into PyCdlibInvalidISO at one place (fix 92e3564).',
+  technique='Coq termination/bound proofs for the directory-walk skeleton + structured corruption run under time and memory limits',
+  design='§8.15'),
+ 'C17': dict(category='proof',
+  text=('Proved for all directories (closed, Model/Pack.v + translated ceiling_div): the cached (extent, offset) at which modify_file_in_place rewrites a record is exactly where the writer put it, the record lies '
+        'inside one block and is disjoint from every other record, and with an unchanged sector count the new data and padding stay inside the file\'s own sectors.  Tie: Pack.v vs dr.py on every run.  The '
+        'property itself on generated images (exactly-filled and multi-sector directories, several names per content in ISO9660/Joliet/UDF, XA, Rock Ridge): bytes of the backing file before/after diffed and '
+        'every changed byte attributed by the independent reader to the file\'s sectors, its own records / file entries or a volume descriptor; every name re-read by the reader and through the API; unrelated '
+        'files re-read; other sector counts and directory targets must be refused leaving the file byte-identical.'),
+  note='The write list itself (which records of the inode are rewritten, UDF entry update) is checked on sampled images, not modelled.  Boot files are excluded (raises after writing: known defect).',
+  technique='Coq position/disjointness proofs over the packing model + byte-diff attribution on generated images',
+  design='§8.17'),
+ 'C20': dict(category='proof',
+  text=('partial.  Proved (closed) over the hand model of build_iso_path\'s collision numbering and of mm3hashfromfile\'s block chaining over the TRANSLATED mm3hash: every ISO9660 name handed out within a '
+        'directory is new (any sequence); the numbered name is not always legal (refuted: "AB.C;000.C;1"); duplicate linking on size + 32-bit hash alone is unsound (refuted with two 8-byte contents of equal '
+        'murmur3 value); without chaining only the last block counts.  Ties: translated mm3hash and the numbering model vs the tool\'s functions on every run; block chaining vs mm3hashfromfile on files around '
+        '32 KiB multiples.  The round trip with the real tools on generated source trees (mangling collisions, symlinks, Unicode, identical / near-identical / hash-colliding contents, depth 10, names > 64) x '
+        'option sets: extracted tree == source tree per requested view; ISO9660 identifiers distinct and legal; requested extensions present.'),
+  note='argument parsing, os.walk order, per-entry decisions and extraction I/O are covered by the sampled round trip only.',
+  technique='Coq proofs over name-numbering model and translated murmur3 + real-tool round trip on generated trees',
+  design='§8.20'),
+})
+
 NA_REASON = 'check not built yet (work in progress; see DESIGN.md section 8)'
 
 
